@@ -16,7 +16,7 @@ Observed(bs, r) ==
 StepOfImpl(bs, r) == LET s == B!CallStep(bs, r) IN
                      IF s.ok THEN [ok |-> Observed(s.bs, r), st |-> s.bs] ELSE [ok |-> FALSE, st |-> bs]
 TraceLog == ndJsonDeserialize(IOEnv.TRACE)
-T == INSTANCE TraceBase WITH Log <- TraceLog, InitSt <- <<>>, StepOf <- StepOfImpl
+T == INSTANCE TraceBase WITH Log <- TraceLog, InitSt <- <<>>, StepOf <- StepOfImpl, ResyncAtNew <- TRUE
 Spec == T!Spec
 Done == T!Done
 ====
